@@ -353,6 +353,48 @@ func genHandlers(hl, mb *pkgFiles, hdr, out string) {
 
 // ---------------------------------------------------------------- concurrency facts
 
+// posUnderLock reports whether position p in fd lies between a Lock()/RLock() statement and its unlock
+// (deferred anywhere in the function, or an explicit matching Unlock() statement after p).
+func posUnderLock(fd *ast.FuncDecl, p token.Pos) bool {
+	type lk struct {
+		pos, unlock token.Pos
+		deferred    bool
+		expr        string
+	}
+	var locks []lk
+	ast.Inspect(fd.Body, func(n ast.Node) bool {
+		if es, ok := n.(*ast.ExprStmt); ok {
+			t := src(es.X)
+			if strings.HasSuffix(t, ".Lock()") || strings.HasSuffix(t, ".RLock()") {
+				locks = append(locks, lk{pos: es.Pos(), expr: t})
+			}
+		}
+		return true
+	})
+	for i := range locks {
+		un := strings.Replace(strings.Replace(locks[i].expr, ".RLock()", ".RUnlock()", 1), ".Lock()", ".Unlock()", 1)
+		ast.Inspect(fd.Body, func(n ast.Node) bool {
+			switch s := n.(type) {
+			case *ast.DeferStmt:
+				if src(s.Call) == un {
+					locks[i].deferred = true
+				}
+			case *ast.ExprStmt:
+				if src(s.X) == un && s.Pos() > locks[i].pos && (locks[i].unlock == 0 || s.Pos() < locks[i].unlock) {
+					locks[i].unlock = s.Pos()
+				}
+			}
+			return true
+		})
+	}
+	for _, l := range locks {
+		if l.pos < p && (l.deferred || (l.unlock != 0 && p < l.unlock)) {
+			return true
+		}
+	}
+	return false
+}
+
 func hasDeferRecover(b *ast.BlockStmt) bool {
 	found := false
 	for _, s := range b.List {
@@ -572,7 +614,23 @@ func genConcurrency(hl, mb *pkgFiles, hdr, out string) {
 					if !used {
 						continue
 					}
-					locked := (strings.Contains(body, ".Lock()") || strings.Contains(body, ".RLock()")) && (strings.Contains(body, "defer ") && (strings.Contains(body, ".Unlock()") || strings.Contains(body, ".RUnlock()")))
+					// an access is under a lock if a Lock()/RLock() statement precedes it in the function and the matching
+					// unlock is deferred or comes (explicitly) after the access
+					locked := true
+					ast.Inspect(fd.Body, func(n ast.Node) bool {
+						se, ok := n.(*ast.SelectorExpr)
+						if !ok || se.Sel.Name != mf.field {
+							return true
+						}
+						if !(recvT == mf.strct || (mf.strct == "Server" && (strings.HasSuffix(src(se.X), "Server") || src(se.X) == "s") && recvT != "")) {
+							return true
+						}
+						if !posUnderLock(fd, se.Pos()) {
+							locked = false
+						}
+						return true
+					})
+					_ = body
 					fn := fd.Name.Name
 					if recvT != "" {
 						fn = recvT + "." + fn
@@ -664,6 +722,61 @@ func genConcurrency(hl, mb *pkgFiles, hdr, out string) {
 		}
 		first = false
 		fmt.Fprintf(&b, "  (%s, %s, %v, %v)", leanStr(l.fn), leanStr(l.lock), l.def, l.paired)
+	}
+	b.WriteString("\n]\n\n")
+
+	// acquisitions in the connection entry points and the statement that follows each
+	b.WriteString("/-- Acquisitions in the connection entry points: (function, acquiring statement, the statement right after it) -/\n")
+	b.WriteString("def acquireRelease : List (String × String × String) := [\n")
+	first = true
+	for _, fn := range []string{"handleNewConnection", "handleFileTransfer"} {
+		fd := findFunc(hl, "Server", fn)
+		if fd == nil {
+			continue
+		}
+		ast.Inspect(fd.Body, func(n ast.Node) bool {
+			var list []ast.Stmt
+			switch b := n.(type) {
+			case *ast.BlockStmt:
+				list = b.List
+			case *ast.CaseClause:
+				list = b.Body
+			default:
+				return true
+			}
+			bs := struct{ List []ast.Stmt }{list}
+			for i, st := range bs.List {
+				t := src(st)
+				acquire := strings.Contains(t, "ClientMgr.Add(") || strings.Contains(t, "Stats.Increment(") ||
+					(strings.Contains(t, "FileTransferMgr.Get(") && strings.Contains(t, ":="))
+				if _, isExpr := st.(*ast.ExprStmt); !isExpr {
+					if _, isAssign := st.(*ast.AssignStmt); !isAssign {
+						acquire = false
+					}
+				}
+				if !acquire {
+					continue
+				}
+				next := ""
+				for j := i + 1; j < len(bs.List) && j <= i+2; j++ {
+					// skip the nil check that directly follows FileTransferMgr.Get
+					if is, ok := bs.List[j].(*ast.IfStmt); ok && strings.Contains(src(is.Cond), "== nil") {
+						continue
+					}
+					next = strings.Join(strings.Fields(src(bs.List[j])), " ")
+					break
+				}
+				if len(next) > 160 {
+					next = next[:160]
+				}
+				if !first {
+					b.WriteString(",\n")
+				}
+				first = false
+				fmt.Fprintf(&b, "  (%s, %s, %s)", leanStr(fn), leanStr(strings.Join(strings.Fields(t), " ")), leanStr(next))
+			}
+			return true
+		})
 	}
 	b.WriteString("\n]\n\n")
 
